@@ -152,6 +152,7 @@ func init() {
 	// maxLen+1 times: C06 C16
 	gtFamily("81-gotrans-directives", []gtItem{
 		{dir: "soyhtml", key: "directiveTruncate", cfg: &gtCfg{fuel: map[int]string{1: "maxLen + 2"}}},
+		it("soyhtml", "directiveInsertWordBreaks"),
 	})
 	// soymsg: tagName, the html placeholder name, hash32 with its block loop (fuel: one iteration per 12 bytes of
 	// limit-start, stated generously); lemmas in Proofs/SourceTieMsgLoops.v (C10 C11)
